@@ -410,16 +410,13 @@ var vhSubCommands = [][]string{
 	{"GET", "k", "a"},
 }
 
-//verif:cfg use=c10l b_subscriber_commands=1_(P)SUBSCRIBE+quick:1|thorough:2_further_of_8_(subscribe,psubscribe,unsubscribe,punsubscribe,two_names,ping,invalid) b_publishes=quick:0..2|thorough:0..3_at_any_moment_before/after_each_acknowledgement_or_before_each_read b_output=RESP|JSON b_threads=command_loop+writer_goroutine quick.maxswitches=6 thorough.maxswitches=8 maxpaths=400000
+//verif:cfg use=c10l b_subscriber_commands=1_(P)SUBSCRIBE+1_further_of_8_(subscribe,psubscribe,unsubscribe,punsubscribe,two_names,ping,invalid) b_publishes=quick:0..2|thorough:0..3_at_any_moment_before/after_each_acknowledgement_or_before_each_read b_output=RESP|JSON b_threads=command_loop+writer_goroutine quick.maxswitches=6 thorough.maxswitches=8 maxpaths=1500000
 func VH_C10_live_subscription() {
 	s := vhServer()
 	vhSubConds = nil
 	conn := &vhSubConn{s: s, json: vnondetBool(), closedCh: make(chan struct{})}
 	first := vhSubCommands[[2]int{0, 1}[vchoose(2)]]
 	nfurther := 1
-	if vthorough() {
-		nfurther = 2
-	}
 	for i := 0; i < nfurther; i++ {
 		conn.packets = append(conn.packets, vhSubCommands[vchoose(len(vhSubCommands))])
 	}
